@@ -101,3 +101,108 @@ def kind_invariant():
                     z3.BoolVal(expected_kind(f, sym_fields) == cls)))
     out.append(("constructor-call-sites-found", z3.BoolVal(n >= 10)))
     return out
+
+
+# --- the printers (encode side of the round trip): fixed text templates ---------------------
+# The importer splits a tensor text at "^{", "}_{" and the closing braces; the printers have
+# to emit exactly  {name^{upper}_{lower}}  /  {name_{indices}}  /  \delta_{i j}  and an
+# index  name[_{\alpha|\beta}]  - also for empty index groups.  Names and index names are
+# opaque holes (arbitrary strings).
+from pyvc.contract import Contract, register
+from pyvc.values import Struct, Sym, PList, term
+
+ASSUMPTIONS[2] = ("import_indices / import_tensor string handling (decode side): bounded stand-in only "
+                  "(string obligations over parsing code are outside the reach of the installed solvers "
+                  "within the time budget)")
+
+
+def _s(v):
+    return z3.StringVal(v) if isinstance(v, str) else term(v)
+
+
+def _cat(*parts):
+    ts = [_s(p) for p in parts if not (isinstance(p, str) and p == "")]
+    if not ts:
+        return z3.StringVal("")
+    return ts[0] if len(ts) == 1 else z3.Concat(*ts)
+
+
+def index_tok(k):
+    return Struct("IndexTok", text=Sym(z3.String(f"index_text{k}")))
+
+
+C.STRUCT_METHODS[("IndexTok", "_latex")] = lambda ip, o, a, k: o.f["text"]
+
+
+class _TensorLatex(Contract):
+    props = ["C18"]
+    SHAPES = [(u, lo) for u in range(0, 3) for lo in range(0, 3)]
+
+    def setup(self, vc):
+        nu, nl = self.SHAPES[vc.choose(len(self.SHAPES), "rank")]
+        up = tuple(index_tok(k) for k in range(nu))
+        lo = tuple(index_tok(10 + k) for k in range(nl))
+        sym = Sym(z3.String("tensor_name"))
+        return {"self": Struct("TensorTok", symbol=sym, args=(sym, up, lo), upper=up, lower=lo),
+                "printer": Struct("Printer")}
+
+    def post(self, vc, a, result):
+        me = a["self"].f
+        up = _cat(*[i.f["text"] for i in me["upper"]])
+        lo = _cat(*[i.f["text"] for i in me["lower"]])
+        return [("text-is-{name^{upper}_{lower}}-also-for-empty-index-groups",
+                 _s(result) == _cat("{", me["symbol"], "^{", up, "}_{", lo, "}}"))]
+
+
+@register
+class AntiSymLatex(_TensorLatex):
+    key = "adcgen.sympy_objects:AntiSymmetricTensor._latex"
+
+
+@register
+class NonSymLatex(Contract):
+    key = "adcgen.sympy_objects:NonSymmetricTensor._latex"
+    props = ["C18"]
+
+    def setup(self, vc):
+        n = vc.choose(4, "rank")
+        idx = tuple(index_tok(k) for k in range(n))
+        sym = Sym(z3.String("tensor_name"))
+        return {"self": Struct("TensorTok", symbol=sym, args=(sym, idx), indices=idx),
+                "printer": Struct("Printer")}
+
+    def post(self, vc, a, result):
+        me = a["self"].f
+        return [("text-is-{name_{indices}}",
+                 _s(result) == _cat("{", me["symbol"], "_{", _cat(*[i.f["text"] for i in me["indices"]]), "}}"))]
+
+
+@register
+class DeltaLatex(Contract):
+    key = "adcgen.sympy_objects:KroneckerDelta._latex"
+    props = ["C18"]
+
+    def setup(self, vc):
+        i, j = index_tok(0), index_tok(1)
+        return {"self": Struct("TensorTok", args=(i, j)), "printer": Struct("Printer")}
+
+    def post(self, vc, a, result):
+        i, j = a["self"].f["args"]
+        return [("text-is-delta-with-space-separated-indices",
+                 _s(result) == _cat("\\delta_{", i.f["text"], " ", j.f["text"], "}"))]
+
+
+@register
+class IndexLatex(Contract):
+    key = "adcgen.indices:Index._latex"
+    props = ["C18"]
+
+    def setup(self, vc):
+        spin = ["", "a", "b"][vc.choose(3, "spin")]
+        return {"self": Struct("IndexObj", name=Sym(z3.String("index_name")), spin=spin),
+                "printer": Struct("Printer")}
+
+    def post(self, vc, a, result):
+        me = a["self"].f
+        suffix = {"": "", "a": "_{\\alpha}", "b": "_{\\beta}"}[me["spin"]]
+        return [("text-is-name-with-the-spin-label", _s(result) == _cat(me["name"], suffix))]
